@@ -209,7 +209,8 @@ PROPERTIES = {
     "C09": {"rules": ["T-TYPECHECK", "T-ENV", "T-X", "T-DELTA"], "level": "translation_validation"},
     "C11": {"rules": ["M-PANIC", "M-LINES", "M-LOCS"], "level": "other"},
     "C12": {"rules": ["M-DIGEST", "M-COMPALL"], "level": "other"},
-    "C13": {"rules": ["M-DET", "M-PAR", "M-DIRTAINT"], "level": "other"},
+    # which string names the exported symbols is C19's matter: any choice is deterministic
+    "C13": {"irrelevant_keys": ["M-DIRTAINT:process_file:symbol-prefix"], "rules": ["M-DET", "M-PAR", "M-DIRTAINT"], "level": "other"},
     "C19": {"rules": ["T-X", "M-EMIT", "M-DIRTAINT", "M-COMPALL"], "level": "translation_validation"},
     "C20": {"rules": ["M-DETRT", "T-DET", "M-UNSAFE", "M-FREEZE"], "level": "other"},
     "C15": {"rules": ["T-ALLOC", "T-ENUM", "T-DELTA", "S-SIB", "S-LEAF", "S-NAV", "S-SET"], "level": "other"},
